@@ -285,9 +285,9 @@ def run_rot(ctx, cases):
         mtext.append("rotg %s %d %d %d %d %d %d %s %s %s %s\n" % (c.cid, c.xs, c.ys, c.it, c.rms, 1 if c.clamp else 0, len(c.data),
                                                               " ".join(qtok(v) for v in par), " ".join(qtok(v) for v in ax),
                                                               " ".join(qtok(v) for v in ay), " ".join(qtok(Fraction(v)) for v in c.data)))
-    rc, out, err = run_driver(model_driver_path("kick"), "".join(mtext))
+    rc, out, err = run_driver(model_driver_path("rot"), "".join(mtext))
     if rc != 0:
-        raise RuntimeError("model_kick (rot) failed rc=%d: %s" % (rc, err[-1500:]))
+        raise RuntimeError("model_rot failed rc=%d: %s" % (rc, err[-1500:]))
     model = parse_cases(out)
     for c in cases:
         r, m = impl[c.cid], model[c.cid]
@@ -489,7 +489,7 @@ def run(ctx):
                 "precomputed table and on-the-fly map, clamp on (cubic + table: isolated peaks, signed and dense data), refused clamp configurations, "
                 "polynomial x^k y^l and random data. Non-trivial: non-zero shift on non-zero data / degree>=1 with fractional offset / it>1 and f!=0 / "
                 "clamped cells whose value the clamp changed.")
-    coq = vp_coq.full_check("C02", ctx, fams=("kick", "round"))
+    coq = vp_coq.full_check("C02", ctx, fams=("kick", "round", "rot"))
     nk = 120 if ctx.quick() else 3000
     cases = kc.gen_cases(ctx, nk, streams=("exact", "whole", "tol", "whole"))
     pc = poly_cases(ctx, 60 if ctx.quick() else 1500)
